@@ -55,6 +55,10 @@ type StreamUnderlay struct {
 	// ---- client fields ----
 	block cipher.BlockCipher
 
+	// newBlock, if set, derives the client's cipher for the current time.
+	// It is used when the first segment is sent.
+	newBlock func() (cipher.BlockCipher, error)
+
 	// ---- server fields ----
 	serverUsers      *serveruser.Registry
 	serverUserSource serveruser.Source
@@ -411,7 +415,10 @@ func (t *StreamUnderlay) readOneSegment() (*segment, error) {
 	var decryptedMeta []byte
 	var authentication serveruser.Authentication
 	if t.recv == nil && t.isClient {
+		// t.block is replaced when the first segment is sent.
+		t.sendMutex.Lock()
 		t.recv = t.block.Clone()
+		t.sendMutex.Unlock()
 	}
 	if t.recv == nil {
 		decryptedMeta, authentication, err = t.serverInitRecvBlockCipherAndDecryptMetadata(encryptedMeta)
@@ -781,6 +788,14 @@ func (t *StreamUnderlay) maybeInitSendBlockCipher() error {
 		return nil
 	}
 	if t.isClient {
+		// The key depends on the time. The handshake happens when the first
+		// segment is sent, which can be minutes after the connection was
+		// dialed, so derive the key now.
+		if t.newBlock != nil {
+			if block, err := t.newBlock(); err == nil {
+				t.block = block
+			}
+		}
 		t.send = t.block.Clone()
 	} else {
 		if t.recv != nil {
